@@ -53,10 +53,12 @@ CLAIMED = {
  "C20": dict(text="Part of the property (the library's own glue, not futures' channels or the scheduler), Verus on the real text of src/asynch.rs: (1) the routing thread's closure body, verified as a function with ghost logs - every MessageReceived(id, m) the receiver set reports for a registered channel is passed exactly once, in report order, to the futures sender that was queued together with that receiver and to no other (forwarded == fwd(delivered), an invariant of all three loops); every live member has its sender, a sender is dropped exactly on ChannelClosed(id) (so the stream ends after its last message) and none outlives its channel; after every select batch every queued route has been taken and registered before the next select; (2) IpcReceiver::to_stream queues (receiver, fresh channel's sender) and only then wakes the thread, and returns the stream reading that same channel; (3) IpcStream::poll_next polls the forwarding channel exactly once with the caller's context and yields exactly what it yields (Pending/End/message decoded). Assumed: futures mpsc (FIFO, lossless, wakes the registered task, ends when senders are gone), the receiver set (C06/U5), epoll registration of the wake-up receiver succeeds, thread scheduling.",
              design="DESIGN.md 3/U11, 4/C20", technique="Verus loop invariants over ghost delivery/forwarding logs on the mechanically extracted closure body and methods",
              note="Trusted: IpcReceiverSet / futures mpsc / Mutex / wake-up sender stand-ins listed in the evidence; the closure body and poll_next are verified under a unit-supplied signature (BlockFn: the text between the braces is copied verbatim); termination of the service loop is not claimed."),
+ "C08": dict(text="Part of the property (what the library's own code contributes to the rendezvous), Verus on the real OsIpcOneShotServer::{new, accept} and OsIpcSender::connect against a ghost ledger of descriptors and rendezvous facts, with every system call free to fail: new() returns as the name exactly the path the listening socket is bound to, listens with a queue of at least one so a client may connect before accept, keeps the socket file inside the temp dir the server value owns (whose Drop removes it), and on failure leaves no descriptor behind; accept() takes one connection from this server's own listening socket, sets SO_LINGER on it, returns a receiver that owns exactly that connection, and the data/channels/regions it returns are those of the first - and only - blocking receive on that connection; connect(name) connects to the path the name denotes and on failure leaves nothing behind. Kani (k_ffi) proves new_sockaddr_un's strncpy stays inside sun_path. That the kernel queues a connecting client until accept, keeps queued data after the client's exit, that tempfile names are distinct and TempDir::drop removes the directory are assumptions; the Drop of OsIpcOneShotServer (one close) is not seen by Verus.",
+             design="DESIGN.md 3/U9, 4/C08", technique="Verus postconditions over a ghost rendezvous ledger on extracted real code; every syscall stub may fail",
+             note="Trusted: socket/bind/listen/accept4/connect/setsockopt/close stubs, tempfile/Path/CString stand-ins carrying a path identity, unix::recv stub (contract proved in U3)."),
 }
 
 NOT_APPLICABLE = {
- "C08": "rendezvous through the filesystem, kernel listen queue, tempfile's RNG and TempDir's Drop: straight-line FFI with nothing a function contract can state; Verus does not see Drop",
  "C19": "differential property over three builds and arbitrary programs; no per-function contract expresses it",
 }
 PENDING = {}
